@@ -270,6 +270,15 @@ func (ex *Exec) havocCall(st *State, fr *Frame, ins ssa.Instruction, name string
 	ex.setResult(st, fr, dst, res)
 	// the call event is observed with the arguments as they were passed; the callee's writes come after
 	ex.event(st, &Event{Callee: name, Args: args, Results: tupleElems(res), Instr: ins, Fn: fr.Fn, Kind: "call"})
+	if ex.Specs != nil {
+		for i := range ex.Specs.RetainsArgs[name] {
+			if i < len(args) {
+				if sv, ok := args[i].(*SliceV); ok && sv.Obj != nil {
+					ex.retain(st, sv.Obj, name)
+				}
+			}
+		}
+	}
 	if writes {
 		var ro map[int]bool
 		if ex.Specs != nil {
